@@ -195,20 +195,38 @@ def spelling_case(job):
     from spec import avm
     out = {"job": list(job), "problems": []}
     try:
+        import hashlib
         sig = "transfer(uint64,address)void"
         addr = "WSJHNPJ6YCLX5K4GUMQ4ISPK3ABMS3AL3F6CSVQTCUI5F4I65PWEMCWT3M"
-        items = [lambda: pt.Len(pt.MethodSignature(sig)), lambda: pt.Len(pt.Bytes(sig)), lambda: pt.Len(pt.Addr(addr)), lambda: pt.Len(pt.Bytes(addr)),
-                 lambda: pt.Len(pt.Bytes("pay")), lambda: pt.TxnType.Payment, lambda: pt.Len(pt.Bytes("NoOp")), lambda: pt.OnComplete.NoOp,
-                 lambda: pt.Len(pt.Bytes("base16", "61")), lambda: pt.Len(pt.Bytes("a")), lambda: pt.Len(pt.Bytes("base64", "YQ==")), lambda: pt.Len(pt.Bytes("0x61")),
-                 lambda: pt.Tmpl.Int("TMPL_A"), lambda: pt.Len(pt.Tmpl.Bytes("TMPL_B")), lambda: pt.Len(pt.Bytes("TMPL_A")), lambda: pt.Int(1), lambda: pt.Len(pt.Bytes("1"))]
+        addr_raw = base64.b32decode(addr + "======")[:32]
+        u = lambda n: n.to_bytes(8, "big")
+        # (expression producing bytes, the bytes it must produce) - expectations written independently of PyTeal
+        items = [(lambda: pt.MethodSignature(sig), hashlib.new("sha512_256", sig.encode()).digest()[:4]), (lambda: pt.Bytes(sig), sig.encode()),
+                 (lambda: pt.Addr(addr), addr_raw), (lambda: pt.Bytes(addr), addr.encode()),
+                 (lambda: pt.Bytes("pay"), b"pay"), (lambda: pt.Itob(pt.TxnType.Payment), u(1)), (lambda: pt.Bytes("NoOp"), b"NoOp"), (lambda: pt.Itob(pt.OnComplete.NoOp), u(0)),
+                 (lambda: pt.Bytes("base16", "61"), b"a"), (lambda: pt.Bytes("a"), b"a"), (lambda: pt.Bytes("base64", "YQ=="), b"a"), (lambda: pt.Bytes("0x61"), b"0x61"),
+                 (lambda: pt.Bytes("base16", "0x61"), b"a"), (lambda: pt.Itob(pt.Int(1)), u(1)), (lambda: pt.Bytes("1"), b"1"), (lambda: pt.Bytes("TMPL"), b"TMPL"),
+                 (lambda: pt.Itob(pt.OnComplete.OptIn), u(1)), (lambda: pt.Bytes("OptIn"), b"OptIn")]
         idx = list(range(len(items)))
         random.Random(order).shuffle(idx)
-        body = []
+        idx = idx[:12]                        # the AVM allows 32 logs per program
+        body, want = [], []
         for k in idx:
-            for _ in range(repeat):
-                body.append(pt.Pop(items[k]()))
+            for j in range(repeat):
+                if j == 0:
+                    body.append(pt.Log(items[k][0]()))
+                    want.append(items[k][1])
+                else:
+                    body.append(pt.Pop(items[k][0]()))
         prog = pt.Seq(*body, pt.Approve())
-        t1 = pt.compileTeal(prog, pt.Mode.Application, version=version, assembleConstants=True)
+        t0 = pt.compileTeal(prog, pt.Mode.Application, version=max(version, 5), assembleConstants=False)
+        t1 = pt.compileTeal(prog, pt.Mode.Application, version=max(version, 5), assembleConstants=True)
+        r0, r1 = avm.run(t0, avm.Ctx()), avm.run(t1, avm.Ctx())
+        for name, rr in (("pseudo-op form", r0), ("assembled form", r1)):
+            if rr.verdict != "approve" or rr.logs != want:
+                k = next((i for i, (a, b) in enumerate(zip(rr.logs, want)) if a != b), min(len(rr.logs), len(want)))
+                out["problems"].append(f"{name}: constant #{k} pushes {rr.logs[k].hex() if k < len(rr.logs) else None}, the literal denotes {want[k].hex() if k < len(want) else None} ({rr.verdict} {rr.detail})")
+                break
         out["problems"] += check_indices(t1)[:3]
     except Exception as e:
         out["problems"].append(f"exception {type(e).__name__}: {str(e)[:200]}")
@@ -256,7 +274,7 @@ def run(report: Report, tier, seed):
         spr = list(ex.map(spelling_case, spj, chunksize=4))
     spbad = [r for r in spr if r["problems"]]
     report.bounded.append(Bounded(function="createConstantBlocks on constants whose literal text or value coincides across literal kinds", contract="every load site pushes the value its own pseudo-op form denotes",
-                                  bound=f"17 literals (method / byte / addr / enum / template / int with coinciding texts, one value in four spellings) x {len(spj)} (order, repetition, version) settings",
+                                  bound=f"18 literals (method / byte / addr / enum / int whose argument texts coincide across kinds, one value in several spellings), each executed and compared with its independently computed value, x {len(spj)} (order, repetition, version) settings",
                                   cases=len(spr), distinct_nontrivial=len(spr), failures=len(spbad)))
     bad = [(s, r) for s, r in zip(specs, res) if [m for m in r["mismatches"] if m["kind"] in ("outcome", "asm")] or r["index_problems"]]
     mbad = [m for m in many if m["problems"]]
